@@ -415,7 +415,9 @@ func runRapid(t *testing.T, n int, prop func(*rapid.T)) {
 	flag.Set("rapid.checks", strconv.Itoa(n))
 	flag.Set("rapid.seed", strconv.Itoa(seed()*1000+sh+1))
 	flag.Set("rapid.nofailfile", "true")
-	if thorough() {
+	if st := os.Getenv("VERIF_SHRINKTIME"); st != "" {
+		flag.Set("rapid.shrinktime", st)
+	} else if thorough() {
 		flag.Set("rapid.shrinktime", "120s")
 	} else {
 		flag.Set("rapid.shrinktime", "30s")
